@@ -8,6 +8,8 @@ pub mod c01;
 pub mod c02;
 pub mod c03;
 pub mod c04;
+pub mod c05;
+pub mod c06;
 pub mod c07;
 pub mod c08;
 pub mod c09;
@@ -121,6 +123,8 @@ pub fn lookup(prop: &str) -> Option<CaseFn> {
         "C02" => c02::case,
         "C03" => c03::case,
         "C04" => c04::case,
+        "C05" => c05::case,
+        "C06" => c06::case,
         "C07" => c07::case,
         "C08" => c08::case,
         "C09" => c09::case,
